@@ -3,6 +3,7 @@ SPECIFICATION Spec
 INVARIANT OutIsPrefixOfExpected
 CHECK_DEADLOCK FALSE
 CONSTANTS
+  ExactTail = TRUE
   Fixed = FALSE
   ArriveDuringPoll = FALSE
   MayClose = FALSE
